@@ -1,2 +1,285 @@
 //! World extension: gt flows (instruction builders over the real program).
+use super::exchange::load;
 use super::*;
+use gmsol_store::states::{
+    gt::{GtExchange, GtExchangeVault, GtState},
+    Store, UserHeader,
+};
+
+/// Arguments of `initialize_gt`.
+#[derive(Clone, Debug)]
+pub struct GtParams {
+    pub decimals: u8,
+    pub initial_minting_cost: u128,
+    pub grow_factor: u128,
+    pub grow_step: u64,
+    pub ranks: Vec<u64>,
+}
+
+/// Decoded `GtUpdated` events of a transaction, in emission order.
+pub fn gt_updated_events(meta: &TxMeta) -> Vec<gmsol_store::events::GtUpdated> {
+    use anchor_lang::{AnchorDeserialize, Discriminator};
+    let mut out = vec![];
+    for (program, data) in &meta.events {
+        if *program != STORE_PID || data.len() < 8 {
+            continue;
+        }
+        if data[..8] == *gmsol_store::events::GtUpdated::DISCRIMINATOR {
+            if let Ok(e) = gmsol_store::events::GtUpdated::deserialize(&mut &data[8..]) {
+                out.push(e);
+            }
+        }
+    }
+    out
+}
+
+impl World {
+    pub fn initialize_gt(&mut self, p: &GtParams) -> TxResult {
+        let (keeper, store) = (self.keeper, self.store);
+        self.send(
+            &[six(
+                sa::InitializeGt { authority: keeper, store, system_program: system_program::ID },
+                si::InitializeGt {
+                    decimals: p.decimals,
+                    initial_minting_cost: p.initial_minting_cost,
+                    grow_factor: p.grow_factor,
+                    grow_step: p.grow_step,
+                    ranks: p.ranks.clone(),
+                },
+            )],
+            &[keeper],
+        )
+    }
+
+    pub fn toggle_gt_minting(&mut self, market: usize, enable: bool) -> TxResult {
+        let (keeper, store) = (self.keeper, self.store);
+        let market = self.markets[market].market;
+        self.send(
+            &[six(sa::ToggleGTMinting { authority: keeper, store, market }, si::ToggleGtMinting { enable })],
+            &[keeper],
+        )
+    }
+
+    pub fn gt_set_order_fee_discount_factors(&mut self, factors: Vec<u128>) -> TxResult {
+        let (keeper, store) = (self.keeper, self.store);
+        self.send(
+            &[six(sa::ConfigureGt { authority: keeper, store }, si::GtSetOrderFeeDiscountFactors { factors })],
+            &[keeper],
+        )
+    }
+
+    pub fn gt_set_referral_reward_factors(&mut self, factors: Vec<u128>) -> TxResult {
+        let (keeper, store) = (self.keeper, self.store);
+        self.send(
+            &[six(sa::ConfigureGt { authority: keeper, store }, si::GtSetReferralRewardFactors { factors })],
+            &[keeper],
+        )
+    }
+
+    pub fn gt_set_exchange_time_window(&mut self, window: u32) -> TxResult {
+        let (keeper, store) = (self.keeper, self.store);
+        self.send(
+            &[six(sa::ConfigureGt { authority: keeper, store }, si::GtSetExchangeTimeWindow { window })],
+            &[keeper],
+        )
+    }
+
+    pub fn gt_vault_pda(&self, time_window_index: i64, time_window: u32) -> Pubkey {
+        pda::find_gt_exchange_vault_address(&self.store, time_window_index, time_window, &STORE_PID).0
+    }
+
+    pub fn gt_exchange_pda(&self, vault: &Pubkey, owner: &Pubkey) -> Pubkey {
+        pda::find_gt_exchange_address(vault, owner, &STORE_PID).0
+    }
+
+    /// `prepare_gt_exchange_vault` for the given index under the store's current window; returns the vault address.
+    pub fn prepare_gt_exchange_vault(&mut self, payer: Pubkey, time_window_index: i64) -> std::result::Result<Pubkey, (TxError, TxMeta)> {
+        let window = self.gt_state().map(|g| g.exchange_time_window()).unwrap_or(0);
+        let vault = self.gt_vault_pda(time_window_index, window);
+        let store = self.store;
+        self.send(
+            &[six(
+                sa::PrepareGtExchangeVault { payer, store, vault, system_program: system_program::ID },
+                si::PrepareGtExchangeVault { time_window_index },
+            )],
+            &[payer],
+        )
+        .map(|_| vault)
+    }
+
+    pub fn request_gt_exchange_ix(&self, owner: Pubkey, vault: Pubkey, amount: u64) -> Instruction {
+        six(
+            sa::RequestGtExchange {
+                owner,
+                store: self.store,
+                user: self.user_pda(&owner),
+                vault,
+                exchange: self.gt_exchange_pda(&vault, &owner),
+                system_program: system_program::ID,
+                event_authority: self.event_authority(),
+                program: STORE_PID,
+            },
+            si::RequestGtExchange { amount },
+        )
+    }
+
+    pub fn request_gt_exchange(&mut self, owner: Pubkey, vault: Pubkey, amount: u64) -> TxResult {
+        let ix = self.request_gt_exchange_ix(owner, vault, amount);
+        self.send(&[ix], &[owner])
+    }
+
+    pub fn confirm_gt_exchange_vault(&mut self, authority: Pubkey, vault: Pubkey, buyback_value: u128, buyback_price: Option<u128>) -> TxResult {
+        let ix = six(
+            sa::ConfirmGtExchangeVault {
+                authority,
+                store: self.store,
+                vault,
+                event_authority: self.event_authority(),
+                program: STORE_PID,
+            },
+            si::ConfirmGtExchangeVaultV2 { buyback_value, buyback_price },
+        );
+        self.send(&[ix], &[authority])
+    }
+
+    pub fn close_gt_exchange(&mut self, authority: Pubkey, owner: Pubkey, vault: Pubkey) -> TxResult {
+        let ix = six(
+            sa::CloseGtExchange {
+                authority,
+                store: self.store,
+                owner,
+                vault,
+                exchange: self.gt_exchange_pda(&vault, &owner),
+            },
+            si::CloseGtExchange {},
+        );
+        self.send(&[ix], &[authority])
+    }
+
+    pub fn mint_gt_reward(&mut self, authority: Pubkey, owner: Pubkey, amount: u64) -> TxResult {
+        let ix = six(
+            sa::MintGtReward {
+                authority,
+                store: self.store,
+                user: self.user_pda(&owner),
+                event_authority: self.event_authority(),
+                program: STORE_PID,
+            },
+            si::MintGtReward { amount },
+        );
+        self.send(&[ix], &[authority])
+    }
+
+    pub fn update_gt_cumulative_inv_cost_factor(&mut self, authority: Pubkey) -> TxResult {
+        let ix = six(
+            sa::UpdateGtCumulativeInvCostFactor { authority, store: self.store },
+            si::UpdateGtCumulativeInvCostFactor {},
+        );
+        self.send(&[ix], &[authority])
+    }
+
+    pub fn prepare_user(&mut self, owner: Pubkey) -> TxResult {
+        let ix = self.prepare_user_ix(owner);
+        self.send(&[ix], &[owner])
+    }
+
+    pub fn referral_code_pda(&self, code: &[u8; 8]) -> Pubkey {
+        pda::find_referral_code_address(&self.store, *code, &STORE_PID).0
+    }
+
+    pub fn initialize_referral_code(&mut self, owner: Pubkey, code: [u8; 8]) -> TxResult {
+        let ix = six(
+            sa::InitializeReferralCode {
+                owner,
+                store: self.store,
+                referral_code: self.referral_code_pda(&code),
+                user: self.user_pda(&owner),
+                system_program: system_program::ID,
+            },
+            si::InitializeReferralCode { code },
+        );
+        self.send(&[ix], &[owner])
+    }
+
+    pub fn set_referrer(&mut self, owner: Pubkey, referrer: Pubkey, code: [u8; 8]) -> TxResult {
+        let ix = six(
+            sa::SetReferrer {
+                owner,
+                store: self.store,
+                user: self.user_pda(&owner),
+                referral_code: self.referral_code_pda(&code),
+                referrer_user: self.user_pda(&referrer),
+            },
+            si::SetReferrer { code },
+        );
+        self.send(&[ix], &[owner])
+    }
+
+    /// Copy of the store's GT state.
+    pub fn gt_state(&self) -> Option<GtState> {
+        load::<Store>(&self.svm, &self.store).map(|s| *s.gt())
+    }
+
+    pub fn user_header(&self, owner: &Pubkey) -> Option<UserHeader> {
+        load::<UserHeader>(&self.svm, &self.user_pda(owner))
+    }
+
+    pub fn gt_vault(&self, vault: &Pubkey) -> Option<GtExchangeVault> {
+        load::<GtExchangeVault>(&self.svm, vault)
+    }
+
+    pub fn gt_exchange(&self, vault: &Pubkey, owner: &Pubkey) -> Option<GtExchange> {
+        load::<GtExchange>(&self.svm, &self.gt_exchange_pda(vault, owner))
+    }
+
+    /// Every `UserHeader` account owned by the store program (found by scanning the account store).
+    pub fn all_user_headers(&self) -> Vec<(Pubkey, UserHeader)> {
+        use anchor_lang::Discriminator;
+        let mut out = vec![];
+        for (k, a) in self.svm.accounts.iter() {
+            if a.owner == STORE_PID
+                && a.data.len() >= 8 + std::mem::size_of::<UserHeader>()
+                && a.data[..8] == *UserHeader::DISCRIMINATOR
+            {
+                if let Some(u) = load::<UserHeader>(&self.svm, k) {
+                    out.push((*k, u));
+                }
+            }
+        }
+        out
+    }
+
+    /// Every GT exchange vault account of the store program.
+    pub fn all_gt_vaults(&self) -> Vec<(Pubkey, GtExchangeVault)> {
+        use anchor_lang::Discriminator;
+        let mut out = vec![];
+        for (k, a) in self.svm.accounts.iter() {
+            if a.owner == STORE_PID
+                && a.data.len() >= 8 + std::mem::size_of::<GtExchangeVault>()
+                && a.data[..8] == *GtExchangeVault::DISCRIMINATOR
+            {
+                if let Some(v) = load::<GtExchangeVault>(&self.svm, k) {
+                    out.push((*k, v));
+                }
+            }
+        }
+        out
+    }
+
+    /// Every GT exchange account of the store program.
+    pub fn all_gt_exchanges(&self) -> Vec<(Pubkey, GtExchange)> {
+        use anchor_lang::Discriminator;
+        let mut out = vec![];
+        for (k, a) in self.svm.accounts.iter() {
+            if a.owner == STORE_PID
+                && a.data.len() >= 8 + std::mem::size_of::<GtExchange>()
+                && a.data[..8] == *GtExchange::DISCRIMINATOR
+            {
+                if let Some(v) = load::<GtExchange>(&self.svm, k) {
+                    out.push((*k, v));
+                }
+            }
+        }
+        out
+    }
+}
